@@ -434,7 +434,7 @@ class Gen:
             return [pad + "return"]
         if k == 8:
             self.use("Stmt.Pass")
-            return [pad + self.pick(["pass", "..."])]
+            return [pad + ("pass" if self.core else self.pick(["pass", "..."]))]
         if k == 9:
             self.use("Stmt.Break")
             return [pad + "break"]
@@ -1200,6 +1200,9 @@ def run_tie(chk, binary, res):
                 ok = False
                 break
             fm += c
+        if any(t[0] == "other" for t in r["toks_src"]):
+            skipped["token outside the model"] = skipped.get("token outside the model", 0) + 1
+            continue
         if not ok or len(terms) > 45:
             skipped["float without i64 display / too long"] = skipped.get("float without i64 display / too long", 0) + 1
             continue
